@@ -91,6 +91,11 @@ def tosym(s, env):
             return None if a is None else ROUND(a)       # halves away from zero
         if op in ('rint', 'Eigen::rint', 'std::rint', 'std::nearbyint') and len(s) == 2:
             return None                                      # rounding-mode dependent: not interpreted
+        if op in ('.cwiseMin', '.cwiseMax', 'std::min', 'std::max', '.min', '.max') and len(s) == 3:
+            a, b = tosym(s[1], env), tosym(s[2], env)
+            if a is None or b is None:
+                return None
+            return (sp.Min if op.lower().endswith('min') else sp.Max)(a, b)
         if op in ('.cast',) and len(s) == 2:
             a = tosym(s[1], env)
             if a is None:
@@ -194,9 +199,24 @@ def check_class(fx, R, cq):
                        sorted(lower_floor)[0], sorted(lower_floor)[1], cname), loc, 'E-INT')
     elif fo and fcnt:
         R.holds('X5', cname + ':first-cell:one-rounding', 'origin and cell count floor the same floating-point expression of the lower bound', loc, 'E-INT')
-    origin = tosym(origin_s, env) if origin_s is not None else None
-    count = tosym(count_s, env) if count_s is not None else None
-    if origin is None or count is None:
+    for x_ in walk(g['body']):
+        if isinstance(x_, dict) and x_.get('k') == 'Ref' and x_.get('rk') == 'global' and x_.get('cv') is not None and not x_.get('mut') and isinstance(x_['cv'], (int, float)):
+            env.setdefault(x_['name'], sp.nsimplify(x_['cv'], rational=True))           # a namespace-scope constant the compiler folded
+    # every top-level assignment of the two members, in order (a later `count = count.cwiseMin(cap)` or `origin -= ...` is part of the formula)
+    origin = count = None
+    interp = True
+    for s_ in st:
+        if s_[0] == 'expr' and isinstance(s_[1], tuple) and len(s_[1]) == 3 and s_[1][0] in ('=', '+=', '-=', '*=', '/=') and s_[1][1] in ('this.flooredMinimalPositionAlongAxes_', 'this.numberOfCellsAlongAxes_'):
+            rhs = tosym(s_[1][2] if s_[1][0] == '=' else (s_[1][0][0], s_[1][1], s_[1][2]), env)
+            if rhs is None:
+                interp = False
+                break
+            env[s_[1][1]] = rhs
+            if s_[1][1].endswith('flooredMinimalPositionAlongAxes_'):
+                origin = rhs
+            else:
+                count = rhs
+    if origin is None or count is None or not interp:
         R.undecided('X3', cname + ':formulas', 'origin / cell-count formulas not interpretable: %s ; %s' % (origin_s, count_s))
         return
     witness_grids(fx, R, cname, g, fi, origin, count, env, l, u, r, loc)
@@ -393,18 +413,22 @@ def check_class(fx, R, cq):
 
 WITNESS_GRIDS = [(-1, 1, '1/10'), (2, 5, 1), ('-122/100', '127/100', '1/10'), ('-331/100', '338/100', '1/4'), ('35/100', '205/100', '1/10'), ('-53/10', '-22/10', '1/2'),
                  ('-105/100', '105/100', '1/10'), (0, 3, '1/2'), ('126/100', '44/10', '1/4'), ('-7/3', '11/7', '1/3'), ('1/10', '9/10', '1/5'), ('-9/10', '-1/10', '1/5'),
-                 ('-7/2', '-3/2', 1), ('-7/4', '-3/4', '1/2'), ('3/2', '7/2', 1), ('-5/2', '5/2', 1), ('1/4', '3/4', '1/2')]
+                 ('-7/2', '-3/2', 1), ('-7/4', '-3/4', '1/2'), ('3/2', '7/2', 1), ('-5/2', '5/2', 1), ('1/4', '3/4', '1/2'),
+                 # the ends of the quantifier: the finest resolution (1e-3) on a short extent, and extents of millions of cells (up to 1e7, coordinates up to 1e3)
+                 ('1/200', '3/100', '1/1000'), ('-600', '600', '1/1000'), ('-1000', '1000', '1/4000'), ('250', '1000', '1/10000')]
 
 
 def _num(e):
     """exact value of an expression of rationals with floor / ceiling / trunc"""
     e = e.replace(lambda x: isinstance(x, sp.core.function.AppliedUndef) and str(x.func) == 'trunc', lambda x: sp.sign(x.args[0]) * sp.floor(sp.Abs(x.args[0])))
     e = e.replace(lambda x: isinstance(x, sp.core.function.AppliedUndef) and str(x.func) == 'roundhalfaway', lambda x: sp.sign(x.args[0]) * sp.floor(sp.Abs(x.args[0]) + sp.Rational(1, 2)))
-    v = sp.nsimplify(e)
+    if getattr(e, 'is_Rational', False):
+        return e
+    v = sp.nsimplify(e, rational=True)
     return v if v.is_Rational else None
 
 
-SYMMETRIC_GRIDS = [('-1', '1', '1/10'), ('-1003/100', '1003/100', '1/10'), ('-11/8', '11/8', 1), ('-17/5', '17/5', 1), ('-35/16', '35/16', '1/2'), ('-3/2', '3/2', '1/4'), ('-27/10', '27/10', 1),
+SYMMETRIC_GRIDS = [('-3/100', '3/100', '1/1000'), ('-600', '600', '1/1000'), ('-1', '1', '1/10'), ('-1003/100', '1003/100', '1/10'), ('-11/8', '11/8', 1), ('-17/5', '17/5', 1), ('-35/16', '35/16', '1/2'), ('-3/2', '3/2', '1/4'), ('-27/10', '27/10', 1),
                    ('-5/2', '5/2', 1), ('-7/4', '7/4', '1/2'), ('-2', '2', '1/3')]
 
 
@@ -480,6 +504,11 @@ def witness_grids(fx, R, cname, g, fi, origin, count, env, l, u, r, loc, grids=N
     p = sp.Symbol('p', real=True)
     ienv = dict(env, point=p, **{'this.cellResolution_': r})
     ienv.update(cast_targets(fi['body']))
+    for s_ in stmts_sx(fi):
+        if s_[0] == 'decl' and s_[2] is not None and s_[1] not in ienv:
+            v_ = tosym(s_[2], ienv)                # a named local of the index map (a tolerance, a reciprocal): read by value
+            if v_ is not None:
+                ienv[s_[1]] = v_
     index = tosym(idx_s[0][1], ienv) if len(idx_s) == 1 else None
     if entry is None or index is None:
         R.undecided('X6', inst, 'table entry / index map not readable as per-axis formulas (entry %s, index %s)' % (entry is not None, index is not None))
@@ -492,24 +521,40 @@ def witness_grids(fx, R, cname, g, fi, origin, count, env, l, u, r, loc, grids=N
             R.undecided('X6', inst, 'origin / count not evaluable on the extent [%s, %s] at resolution %s' % (lo, hi, res))
             return
         what = 'extent [%s, %s] at resolution %s (N = %s cells)' % (lo, hi, res, N)
-        if not (N.is_Integer and 0 < N < 400):
+        if not (N.is_Integer and 0 < N):
             bad = bad or (what, 'the cell count is %s' % N)
             continue
         N = int(N)
-        tab = [_num(entry.subs(w).subs(nn, k)) for k in range(N)]
-        if any(t is None for t in tab):
+        if N > QUANT['cells']:
+            continue                               # outside the quantifier
+        big = N >= 400                             # a large grid (up to the 1e7 cells of the quantifier): entries are evaluated on demand, not tabulated
+
+        class _Tab(object):
+            def __init__(self):
+                self.c = {}
+
+            def __getitem__(self, k):
+                if k not in self.c:
+                    self.c[k] = _num(entry.subs(w).subs(nn, k))
+                return self.c[k]
+        tab = _Tab()
+        ks = list(range(N)) if not big else sorted({0, 1, 2, N // 3, N // 2, N - 3, N - 2, N - 1})
+        if any(tab[k] is None for k in ks):
             R.undecided('X6', inst, 'table entry not evaluable on the %s' % what)
             return
         ix = lambda q: _num(index.subs(w).subs(p, q))
         n_grids += 1
-        for k in range(N - 1):
-            if tab[k + 1] - tab[k] != w[r]:
+        for k in ks:
+            if k + 1 < N and tab[k + 1] - tab[k] != w[r]:
                 bad = bad or (what, 'centres %d and %d are %s apart, not one resolution' % (k, k + 1, tab[k + 1] - tab[k]))
-        for k in range(N):
+        for k in ks:
             i_ = ix(tab[k])
             if i_ != k:
                 bad = bad or (what, 'the centre %s of cell %d maps to index %s' % (tab[k], k, i_))
         pts = [w[l], w[u]] + [w[l] + (w[u] - w[l]) * sp.Rational(k, 7) for k in range(1, 7)] + [w[u] - w[r] / 3, w[l] + w[r] / 3, w[u] - w[r] * sp.Rational(9, 20)]
+        # points a hair inside either border of a few cells (a thousandth of the resolution): they belong to that cell, whatever the resolution is
+        for k in sorted({ks[0], ks[len(ks) // 2], ks[-1]}):
+            pts += [tab[k] + w[r] / 2 - w[r] / 1024, tab[k] - w[r] / 2 + w[r] / 1024]
         for q in pts:
             if not (w[l] <= q <= w[u]):
                 continue
@@ -517,6 +562,9 @@ def witness_grids(fx, R, cname, g, fi, origin, count, env, l, u, r, loc, grids=N
             i_ = ix(q)
             if i_ is None or not (0 <= i_ < N):
                 bad = bad or (what, 'the in-extent point %s gets index %s, outside [0, %d)' % (q, i_, N))
+            elif tab[int(i_)] is None:
+                R.undecided('X6', inst, 'table entry not evaluable on the %s' % what)
+                return
             elif abs(q - tab[int(i_)]) > w[r] / 2:
                 bad = bad or (what, 'the point %s is %s away from the centre %s of its cell %s (more than half a resolution)' % (q, abs(q - tab[int(i_)]), tab[int(i_)], i_))
     if bad:
